@@ -10,6 +10,8 @@ the author of the checks and are not claimed to pass the 45 baseline tests.
 usage: tools/mutants.py [name-substring ...]
 """
 import subprocess, sys, os, re, json
+REPO = os.environ.get("REPO", "/repo")
+VERIF = os.environ.get("VERIF", "/verif")
 
 M = []
 def m(name, props, file, old, new):
@@ -103,11 +105,11 @@ def sh(cmd, **kw):
 def main():
     sel = sys.argv[1:]
     rows = []
-    assert sh("git -C /repo status --porcelain --untracked-files=no").stdout.strip() == "", "/repo not clean"
+    assert sh(f"git -C {REPO} status --porcelain --untracked-files=no").stdout.strip() == "", "repo not clean"
     for mt in M:
         if sel and not any(s in mt["name"] for s in sel):
             continue
-        path = os.path.join("/repo", mt["file"])
+        path = os.path.join(REPO, mt["file"])
         src = open(path).read()
         if src.count(mt["old"]) != 1:
             rows.append((mt["name"], "-", f"pattern matches {src.count(mt['old'])} times (stale mutant)"))
@@ -115,13 +117,13 @@ def main():
         open(path, "w").write(src.replace(mt["old"], mt["new"]))
         try:
             for p in mt["props"]:
-                r = sh(f"cd /verif && ./check {p} quick 2>/dev/null")
+                r = sh(f"cd {VERIF} && ./check {p} quick 2>/dev/null")
                 sig = re.search(r"^FAIL .*?sig=\[([^\]]*)\]", r.stdout, re.M)
                 verdict = {0: "MISSED", 1: "caught", 2: "infrastructure/does-not-build"}.get(r.returncode, str(r.returncode))
                 rows.append((mt["name"], p, verdict + (f" [{sig.group(1)}]" if sig else "")))
                 print(rows[-1], flush=True)
         finally:
-            sh("git -C /repo checkout -- .")
+            sh(f"git -C {REPO} checkout -- .")
     with open("/verif/tools/mutants_results.md", "w") as f:
         f.write("| mutant | check | result |\n|---|---|---|\n")
         for r in rows:
